@@ -751,14 +751,6 @@ func (s *state) other(ws []string) string {
 		return "ok"
 	case "export":
 		// Go-side sharing: Export of a Uint8Array must alias the slab (checked in dump via ALIAS)
-		if os.Getenv("C17_CHECKPTR") != "" {
-			// known finding go-panic:m:export (Export of a typed array over a detached buffer calls
-			// unsafe.Slice(nil, n)): under -d=checkptr that is a fatal throw instead of a recoverable panic and
-			// would end the whole shard, so the checkptr run skips exactly this input (the normal run keeps it)
-			if ab, ok := v.Get("buffer").Export().(goja.ArrayBuffer); ok && ab.Detached() {
-				return "ok"
-			}
-		}
 		return s.exportCheck(v)
 	default:
 		panic("unknown method " + name)
